@@ -316,4 +316,158 @@ example : ray_plane (⟨0, 0, 0⟩ : V3 ℝ) M33.identity ⟨0, 0, 0⟩ ⟨0, 0,
   rw [this]
   norm_num [_ray_map, M33.mulVec, M33.transpose, M33.identity, V3.sub, minval]
 
+/-! ### 5. `ray_ellipsoid`
+  `ellScale size = (safe_div 1 size₀², safe_div 1 size₁², safe_div 1 size₂²)`; for `sizeᵢ ≠ 0` this is
+  `1/sizeᵢ²` (for `sizeᵢ = 0` the code substitutes `1/MJ_MINVAL`, so no hypothesis on `size` is needed for
+  the general statement). -/
+
+/-- (5a) **hit**, general form: if the result `x ≥ 0`, the local hit point `p = lpnt + x·lvec` satisfies
+    `Σ sᵢ·pᵢ² = 1`, no smaller `t ≥ 0` does, and the normal is `mat · normalize(s ∘ p)` (the gradient
+    direction of the ellipsoid's quadratic form, rotated to the world frame). -/
+theorem ray_ellipsoid_hit (pos : V3 ℝ) (mat : M33 ℝ) (size pnt vec : V3 ℝ) :
+    let l := _ray_map pos mat pnt vec
+    let s := ellScale size
+    let r := ray_ellipsoid pos mat size pnt vec
+    let E : ℝ → ℝ := fun t => s.c0 * (rayPt l.1 l.2 t).c0 ^ 2 + s.c1 * (rayPt l.1 l.2 t).c1 ^ 2 +
+      s.c2 * (rayPt l.1 l.2 t).c2 ^ 2
+    0 ≤ r.1 →
+      E r.1 = 1 ∧ (∀ t : ℝ, 0 ≤ t → E t = 1 → r.1 ≤ t) ∧
+      r.2 = M33.mulVec mat (V3.normalize (V3.cwmul s (rayPt l.1 l.2 r.1))) := by
+  obtain ⟨lp, lv, hl⟩ : ∃ lp lv, _ray_map pos mat pnt vec = (lp, lv) := ⟨_, _, rfl⟩
+  obtain ⟨s0, s1, s2⟩ := ellScale_pos size
+  have hr := ray_ellipsoid_eq pos mat size pnt vec
+  rw [hl] at hr ⊢
+  dsimp only at hr ⊢
+  set s := ellScale size with hs
+  have hq := quad_sol (V3.dot (V3.cwmul s lv) lv) (V3.dot (V3.cwmul s lv) lp)
+    (V3.dot (V3.cwmul s lp) lp - 1)
+    (by simp only [V3.dot, V3.cwmul, hadd, hmul]
+        nlinarith [mul_nonneg s0.le (mul_self_nonneg lv.c0), mul_nonneg s1.le (mul_self_nonneg lv.c1),
+          mul_nonneg s2.le (mul_self_nonneg lv.c2)])
+    (by simp only [V3.dot, V3.cwmul, hadd, hmul]
+        intro h
+        have h0 : s.c0 * lv.c0 * lv.c0 = 0 := by
+          nlinarith [mul_nonneg s0.le (mul_self_nonneg lv.c0), mul_nonneg s1.le (mul_self_nonneg lv.c1),
+            mul_nonneg s2.le (mul_self_nonneg lv.c2)]
+        have h1 : s.c1 * lv.c1 * lv.c1 = 0 := by
+          nlinarith [mul_nonneg s0.le (mul_self_nonneg lv.c0), mul_nonneg s1.le (mul_self_nonneg lv.c1),
+            mul_nonneg s2.le (mul_self_nonneg lv.c2)]
+        have h2 : s.c2 * lv.c2 * lv.c2 = 0 := by
+          nlinarith [mul_nonneg s0.le (mul_self_nonneg lv.c0), mul_nonneg s1.le (mul_self_nonneg lv.c1),
+            mul_nonneg s2.le (mul_self_nonneg lv.c2)]
+        have z0 : lv.c0 = 0 := by
+          rcases mul_eq_zero.mp h0 with h | h
+          · rcases mul_eq_zero.mp h with h | h
+            · exact absurd h (ne_of_gt s0)
+            · exact h
+          · exact h
+        have z1 : lv.c1 = 0 := by
+          rcases mul_eq_zero.mp h1 with h | h
+          · rcases mul_eq_zero.mp h with h | h
+            · exact absurd h (ne_of_gt s1)
+            · exact h
+          · exact h
+        have z2 : lv.c2 = 0 := by
+          rcases mul_eq_zero.mp h2 with h | h
+          · rcases mul_eq_zero.mp h with h | h
+            · exact absurd h (ne_of_gt s2)
+            · exact h
+          · exact h
+        rw [z0, z1, z2]; ring)
+  dsimp only at hq
+  obtain ⟨hq1, -, -, -⟩ := hq
+  have hE : ∀ t : ℝ, s.c0 * (rayPt lp lv t).c0 ^ 2 + s.c1 * (rayPt lp lv t).c1 ^ 2 +
+      s.c2 * (rayPt lp lv t).c2 ^ 2 - 1 =
+      V3.dot (V3.cwmul s lv) lv * t ^ 2 + 2 * V3.dot (V3.cwmul s lv) lp * t +
+        (V3.dot (V3.cwmul s lp) lp - 1) := by
+    intro t
+    simp only [V3.dot, V3.cwmul, rayPt, V3.add, V3.muls, hadd, hmul]
+    ring
+  rw [hr]
+  dsimp only
+  intro h0
+  obtain ⟨e1, e2⟩ := hq1 h0
+  refine ⟨?_, ?_, ?_⟩
+  · have := hE ((_ray_quad (V3.dot (V3.cwmul s lv) lv) (V3.dot (V3.cwmul s lv) lp)
+      (V3.dot (V3.cwmul s lp) lp - 1)).1)
+    linarith
+  · intro t ht hEt
+    apply e2 t ht
+    have := hE t
+    linarith
+  · rw [if_pos h0]
+
+/-- (5b) with non-zero semi-axes the hit point satisfies the ellipsoid equation `Σ (pᵢ/sizeᵢ)² = 1`. -/
+theorem ray_ellipsoid_hit_on_surface (pos : V3 ℝ) (mat : M33 ℝ) (size pnt vec : V3 ℝ)
+    (h0 : size.c0 ≠ 0) (h1 : size.c1 ≠ 0) (h2 : size.c2 ≠ 0) :
+    let l := _ray_map pos mat pnt vec
+    let r := ray_ellipsoid pos mat size pnt vec
+    0 ≤ r.1 →
+      ((rayPt l.1 l.2 r.1).c0 / size.c0) ^ 2 + ((rayPt l.1 l.2 r.1).c1 / size.c1) ^ 2 +
+        ((rayPt l.1 l.2 r.1).c2 / size.c2) ^ 2 = 1 := by
+  intro l r hr
+  have h := (ray_ellipsoid_hit pos mat size pnt vec hr).1
+  simp only [ellScale, safe_inv_of_ne _ (mul_ne_zero h0 h0), safe_inv_of_ne _ (mul_ne_zero h1 h1),
+    safe_inv_of_ne _ (mul_ne_zero h2 h2)] at h
+  rw [← h]
+  field_simp
+  ring
+
+/-- (5c) a negative result is exactly `(-1, 0)`. -/
+theorem ray_ellipsoid_miss (pos : V3 ℝ) (mat : M33 ℝ) (size pnt vec : V3 ℝ) :
+    (ray_ellipsoid pos mat size pnt vec).1 < 0 → ray_ellipsoid pos mat size pnt vec = (-1, V3.zero) := by
+  obtain ⟨s0, s1, s2⟩ := ellScale_pos size
+  rw [ray_ellipsoid_eq]
+  dsimp only
+  intro h
+  rw [if_neg (not_le.mpr h)]
+  have := ray_quad_neg _ _ _ h
+  rw [this]
+
+/-! ### 8. `ray_cylinder`, `ray_capsule`
+  `size.c0` = radius, `size.c1` = half-height, axis = local z. -/
+
+/-- (8a) PARTIAL (soundness of a reported hit; nearest-ness is not proved).
+    If `ray_cylinder` returns `x ≥ 0`, the local hit point `p = lpnt + x·lvec` lies on the cylinder surface:
+    on the bottom cap (`p.z = -h`, `p.x² + p.y² ≤ r²`, normal `mat·(0,0,-1)`), on the top cap
+    (`p.z = h`, …, normal `mat·(0,0,1)`), or on the side (`p.x² + p.y² = r²`, `|p.z| ≤ h`,
+    normal `mat·normalize(p.x, p.y, 0)`).
+    Full statement wanted: additionally `∀ t ≥ 0` with `lpnt + t·lvec` on the surface, `x ≤ t`. -/
+theorem ray_cylinder_hit_on_surface_partial (pos : V3 ℝ) (mat : M33 ℝ) (size pnt vec : V3 ℝ) :
+    let l := _ray_map pos mat pnt vec
+    let r := ray_cylinder pos mat size pnt vec
+    let p := rayPt l.1 l.2 r.1
+    0 ≤ r.1 →
+      (p.c2 = -size.c1 ∧ p.c0 * p.c0 + p.c1 * p.c1 ≤ size.c0 * size.c0 ∧
+          r.2 = M33.mulVec mat ⟨0, 0, -1⟩) ∨
+      (p.c2 = size.c1 ∧ p.c0 * p.c0 + p.c1 * p.c1 ≤ size.c0 * size.c0 ∧
+          r.2 = M33.mulVec mat ⟨0, 0, 1⟩) ∨
+      (p.c0 * p.c0 + p.c1 * p.c1 = size.c0 * size.c0 ∧ |p.c2| ≤ size.c1 ∧
+          r.2 = M33.mulVec mat (V3.normalize ⟨p.c0, p.c1, 0⟩)) := by
+  obtain ⟨lp, lv, hl⟩ : ∃ lp lv, _ray_map pos mat pnt vec = (lp, lv) := ⟨_, _, rfl⟩
+  have hr := ray_cylinder_eq pos mat size pnt vec
+  rw [hl] at hr ⊢
+  dsimp only at hr ⊢
+  have hinv := cylSide_inv lp lv size _ _ (cylCaps_inv lp lv size)
+  set s := cylSide lp lv size (cylCaps lp lv size).2.2.1 (cylCaps lp lv size).2.2.2 with hs
+  obtain ⟨x, part⟩ := s
+  rw [hr]
+  simp only [slt, lit_zero, lit_neg_one]
+  split_ifs with hd
+  · intro h0; norm_num at h0
+  · dsimp only at hinv ⊢
+    intro h0
+    simp only [rayPt, V3.add, V3.muls, hadd, hmul, mul_comm lv.c0 x, mul_comm lv.c1 x, mul_comm lv.c2 x]
+    rcases hinv with (⟨hx, -⟩ | ⟨-, hz | hz, hdisk⟩) | ⟨-, hp, hside, hzz⟩
+    · rw [hx] at h0; norm_num at h0
+    · left
+      refine ⟨hz.2, hdisk, ?_⟩
+      simp [cylNormal, h0, hz.1]
+    · right; left
+      refine ⟨hz.2, hdisk, ?_⟩
+      simp [cylNormal, h0, hz.1]
+    · right; right
+      refine ⟨hside, hzz, ?_⟩
+      simp [cylNormal, h0, hp, V3.add, V3.muls, mul_comm]
+
 end Mjw.Props.C34
